@@ -2002,9 +2002,16 @@ static bool is_const_expr(Node *node) {
   case ND_NE:
   case ND_LT:
   case ND_LE:
-  case ND_LOGAND:
-  case ND_LOGOR:
     return is_const_expr(node->lhs) && is_const_expr(node->rhs);
+  case ND_LOGAND:
+    // The right operand is not evaluated if the left one decides.
+    if (!is_const_expr(node->lhs))
+      return false;
+    return !eval(node->lhs) || is_const_expr(node->rhs);
+  case ND_LOGOR:
+    if (!is_const_expr(node->lhs))
+      return false;
+    return eval(node->lhs) || is_const_expr(node->rhs);
   case ND_COND:
     if (!is_const_expr(node->cond))
       return false;
